@@ -208,6 +208,18 @@ def D11(tmp):
         "Clear comment removed the foreign top-level 'comment', kept info.comment"
 
 
+def D42(tmp):
+    from torrentfile.cli import execute
+    import pyben
+    out = os.path.join(tmp, "o.torrent")
+    meta = {"announce": "http://t/a", "info": {"comment": "before", "length": 1, "name": "a", "piece length": PL,
+                                              "pieces": b"x" * 20}}
+    pyben.dump(meta, out)
+    _quiet(execute, ["edit", out, "--comment=--"])
+    got = pyben.load(out)["info"].get("comment")
+    return got != "--", f"edit --comment=-- wrote comment = {got!r} (the value '--' is eaten by argparse)"
+
+
 # ---------------------------------------------------------------- C08
 def D12(tmp):
     d = os.path.join(tmp, "payload")
